@@ -9,6 +9,7 @@ CONSTANTS
   MaxOps = 4
   Collide = FALSE
   ExportAt = 0
+  MultiSri = FALSE
   LenOf <- MCLenOf
   BucketOf <- MCBucketOf
   ReflinkOK = FALSE
